@@ -1,4 +1,4 @@
-"""symexec: abstract execution of small byte-copy routines over polynomial normal forms (engines/polysign).
+"""absexec: abstract execution of small byte-copy routines over polynomial normal forms (engines/polysign).
 
 The routines analysed (a file copied in parts, an exact-length read loop) compute with a handful of integers: sizes, part
 numbers, offsets, a remaining-byte counter.  This module executes their *syntax tree* abstractly:
